@@ -180,6 +180,18 @@ CHECKS["C20"] = dict(
     technique="TLA+ state machine; histories generated by TLC, replayed into the real object, every step validated by TLC",
     design="7/C20")
 
+CHECKS["C13"] = dict(
+    category="model_checking",
+    text="Param.tla transcribes the POSIX parameter-expansion table (state x operator -> value / word / assignment / error / null; $@ "
+         "and $* field generation; nounset; length; pattern removal through Pattern.tla; field splitting of results through "
+         "Split.tla).  TLC enumerates the full product of operators, parameter kinds and states, positional sets, words (incl. a "
+         "side-effect word that reveals eager expansion), quoting, IFS and nounset; every cell is expanded by the real "
+         "ExecEnv.Expand and validated by TLC (fields, error class, word expanded iff used, assignment iff prescribed).",
+    note="Trusted: Param.tla's transcription of XCU 2.6.2; cells POSIX leaves open are marked Unspecified in the spec (${#*}; quoted "
+         "${@ op word} without positional parameters) and only checked for absence of panics; the driver's AST construction; TLC.",
+    technique="TLA+ table model; complete product enumerated by TLC, every cell validated by TLC",
+    design="7/C13")
+
 NOT_APPLICABLE = {}
 
 ALL = ["C%02d" % i for i in range(1, 21)]
